@@ -1236,9 +1236,17 @@ where
 
         module.visit_mut_children_with(self);
 
+        // whatever is added goes after the directive prologue (`"use client"`, ...), which
+        // would otherwise stop being one
+        let prologue = module
+            .body
+            .iter()
+            .take_while(|item| matches!(item, ModuleItem::Stmt(stmt) if util::is_directive_stmt(stmt)))
+            .count();
+
         if !self.injecting_consts.is_empty() {
             module.body.insert(
-                0,
+                prologue,
                 ModuleItem::Stmt(Stmt::Decl(Decl::Var(Box::new(VarDecl {
                     span: DUMMY_SP,
                     kind: VarDeclKind::Const,
@@ -1250,7 +1258,7 @@ where
 
         if !self.injecting_vars.is_empty() {
             module.body.insert(
-                0,
+                prologue,
                 ModuleItem::Stmt(Stmt::Decl(Decl::Var(Box::new(VarDecl {
                     span: DUMMY_SP,
                     kind: VarDeclKind::Let,
@@ -1263,7 +1271,7 @@ where
 
         if let Some(slot_helper) = &self.slot_helper_ident {
             module.body.insert(
-                0,
+                prologue,
                 ModuleItem::Stmt(Stmt::Decl(Decl::Fn(util::build_slot_helper(
                     slot_helper.clone(),
                     self.import_from_vue("isVNode"),
@@ -1273,7 +1281,7 @@ where
 
         if let Some(helper) = &self.transform_on_helper {
             module.body.insert(
-                0,
+                prologue,
                 ModuleItem::ModuleDecl(ModuleDecl::Import(ImportDecl {
                     span: DUMMY_SP,
                     specifiers: vec![ImportSpecifier::Default(ImportDefaultSpecifier {
@@ -1290,7 +1298,7 @@ where
 
         if !self.vue_imports.is_empty() {
             module.body.insert(
-                0,
+                prologue,
                 ModuleItem::ModuleDecl(ModuleDecl::Import(ImportDecl {
                     span: DUMMY_SP,
                     specifiers: self
@@ -1324,9 +1332,15 @@ where
 
         stmts.visit_mut_children_with(self);
 
+        // after a directive prologue (`"use strict"`, `"worklet"`, ...)
+        let prologue = stmts
+            .iter()
+            .take_while(|stmt| util::is_directive_stmt(stmt))
+            .count();
+
         if !self.injecting_consts.is_empty() {
             stmts.insert(
-                0,
+                prologue,
                 Stmt::Decl(Decl::Var(Box::new(VarDecl {
                     span: DUMMY_SP,
                     kind: VarDeclKind::Const,
@@ -1338,7 +1352,7 @@ where
 
         if !self.injecting_vars.is_empty() {
             stmts.insert(
-                0,
+                prologue,
                 Stmt::Decl(Decl::Var(Box::new(VarDecl {
                     span: DUMMY_SP,
                     kind: VarDeclKind::Let,
